@@ -311,8 +311,9 @@ func genDown(r *vlib.R, kind int) string {
 		return fmt.Sprintf("0;%s%s%st;-;n;-;%s", b(r.Chance(1, 2)), "f", b(r.Chance(3, 4)), soa())
 	case 1: // NODATA through an alias
 		return fmt.Sprintf("0;%sf%st;-;n;c/%d/0/1;%s", b(r.Chance(1, 2)), b(r.Chance(3, 4)), vlib.Pick(r, ttlPool), soa())
-	case 2:
-		return fmt.Sprintf("3;%sf%st;-;n;-;%s", b(r.Chance(1, 2)), b(r.Chance(3, 4)), soa())
+	case 2: // NXDOMAIN, bare or behind an alias chain ("alias exists, target does not")
+		ans := vlib.Pick(r, []string{"-", "-", "c/60/0/1", "c/300/0/1,c/60/1/2", "d/60/5/6,c/60/0/1", "d/3600/5/6"})
+		return fmt.Sprintf("3;%sf%st;-;n;%s;%s", b(r.Chance(1, 2)), b(r.Chance(3, 4)), ans, soa())
 	case 3: // SERVFAIL + EDE
 		var codes []string
 		for i, k := 0, 1+r.Intn(2); i < k; i++ {
